@@ -304,7 +304,7 @@ func vRaceSession(k *vCaller, w vRaceWorkload, cycle int, dir string, reconfigur
 	}
 	k.must("ReadComment", &zero, &s)
 	nap()
-	for i := 0; i < 400; i++ { // one archive request at a time: wait for the first file to be finished
+	for i := 0; i < 1600; i++ { // one archive request at a time: wait for the first file to be finished
 		if _, err := os.Stat(rawfile); err == nil {
 			break
 		}
